@@ -662,15 +662,16 @@ impl Cache {
                         let mut tmp = get_tempfile()?;
 
                         match populate(&mut tmp, None) {
-                            Err(e) if e.kind() == ErrorKind::NotFound => {
-                                return Ok(file);
+                            // `NotFound` only skips the comparison: we
+                            // must still obey the judge's verdict below.
+                            Err(e) if e.kind() == ErrorKind::NotFound => {}
+                            ret => {
+                                ret?;
+                                tmp.seek(SeekFrom::Start(0))?;
+                                checker(&mut file, &mut tmp)?;
+                                file.seek(SeekFrom::Start(0))?;
                             }
-                            ret => ret?,
                         };
-
-                        tmp.seek(SeekFrom::Start(0))?;
-                        checker(&mut file, &mut tmp)?;
-                        file.seek(SeekFrom::Start(0))?;
                     }
 
                     return if matches!(j, CacheHitAction::Accept) {
